@@ -39,6 +39,34 @@ pub struct ExSeekFrom(std::io::SeekFrom);
 #[verifier::reject_recursive_types(T)]
 pub struct ExOnce<T>(core::iter::Once<T>);
 
+// ---------------------------------------------------------------- directory listing (Directory::open), over the ghost model of spec/vfs.rs
+#[verifier::external_type_specification]
+#[verifier::external_body]
+pub struct ExDirEntry(std::fs::DirEntry);
+#[verifier::external_type_specification]
+#[verifier::external_body]
+pub struct ExFileType(std::fs::FileType);
+#[verifier::external_type_specification]
+#[verifier::external_body]
+pub struct ExOsString(std::ffi::OsString);
+#[verifier::external_type_specification]
+#[verifier::external_body]
+pub struct ExOsStr(std::ffi::OsStr);
+
+/// `DirEntry::file_type` does not follow symlinks: it says what the entry itself is
+pub assume_specification[ std::fs::DirEntry::file_type ](e: &std::fs::DirEntry) -> (r: std::io::Result<std::fs::FileType>)
+    ensures r matches Ok(t) ==> crate::vfs::ft_is_file(t) == crate::vfs::entry_is_regular(e);
+pub assume_specification[ std::fs::FileType::is_file ](t: &std::fs::FileType) -> (r: bool)
+    ensures r == crate::vfs::ft_is_file(*t);
+pub assume_specification[ std::fs::DirEntry::file_name ](e: &std::fs::DirEntry) -> (r: std::ffi::OsString)
+    ensures r == crate::vfs::entry_name(e);
+pub assume_specification[ <std::ffi::OsString as std::ops::Deref>::deref ](s: &std::ffi::OsString) -> (r: &std::ffi::OsStr)
+    ensures r == crate::vfs::os_ref(s);
+pub assume_specification[ std::ffi::OsStr::to_str ](s: &std::ffi::OsStr) -> (r: Option<&str>)
+    ensures match r { Some(t) => crate::vfs::os_utf8(s) == Some(t@), None => crate::vfs::os_utf8(s) is None };
+pub assume_specification[ std::path::Path::to_path_buf ](p: &std::path::Path) -> (r: std::path::PathBuf)
+    ensures r == crate::vfs::path_buf_of(p);
+
 /// `<File as Seek>::seek` to an absolute offset: on success the cursor stands there (the only use: RollingReader::into_writer).
 /// What remains to be READ from the handle (file_rest) is not specified after a seek.
 pub assume_specification[ <std::fs::File as std::io::Seek>::seek ](f: &mut std::fs::File, pos: std::io::SeekFrom) -> (r: std::io::Result<u64>)
